@@ -121,9 +121,9 @@ Definition model_view (c : pcase) : N * option interface * bool :=
 
 (* ------------------------------------------------------------------ C14 cases *)
 
-(* comment texts that survive a round trip: valid UTF-8, no line feed, no leading blank *)
+(* comment texts that survive a round trip: valid UTF-8, no line break (LF, CR), no leading blank *)
 Definition comment_ok (c : comment) : bool :=
-  utf8_valid c && negb (existsb (fun b => b =? 10) c)
+  utf8_valid c && negb (existsb (fun b => (b =? 10) || (b =? 13)) c)
   && match c with b :: _ => negb (is_sp_tab b) | [] => true end.
 Definition comments_ok (cs : list comment) : bool := forallb comment_ok cs.
 
@@ -154,7 +154,7 @@ Definition interface_wf (t : interface) : bool :=
    which carries a comment (multi-line rendering without separators, custom_enum.rs:70-82) *)
 Definition known_commented_enum (t : interface) : bool :=
   existsb (fun c => match c with
-                    | CEnum _ (_ :: _ :: _ as vs) _ => existsb has_comments vs
+                    | CEnum _ ((_ :: _ :: _) as vs) _ => existsb has_comments vs
                     | _ => false end) (itypes t).
 
 Record bcase := mkB {
